@@ -84,6 +84,26 @@ def enc_message_sent(V, seq, mtype, dest, aps, tag, status, msg=b""):
     return X.response_header(V, seq, 0x3F, callback=True) + body
 
 
+def request_entries(app, pairs):
+    """Entries keyed by a request's (destination, message tag) in any container hanging off the application
+    object, whatever the attribute is called -> [(attribute name, key)]."""
+    found = []
+    for name, val in list(vars(app).items()):
+        try:
+            keys = list(val.keys()) if isinstance(val, dict) else list(val) if isinstance(val, (set, list, tuple)) else None
+        except Exception:  # noqa: BLE001
+            keys = None
+        for k in keys or ():
+            if isinstance(k, tuple) and len(k) == 2:
+                try:
+                    kk = (int(k[0]), int(k[1]))
+                except Exception:  # noqa: BLE001
+                    continue
+                if kk in pairs:
+                    found.append((name, kk))
+    return found
+
+
 def expected(req, APS_T, NRETRY):
     """-> (outcome class, detail)"""
     enq = (req["enq"] + ["ok"] * 3)[:NRETRY]
@@ -218,6 +238,8 @@ def run_shard(desc) -> Acc:
                     codes_seen.add(ST["ref_rand"])
                 r["tags"].append(p["tag"])
                 if name == "sendUnicast":
+                    # bookkeeping while the request is in flight (observability of the "nothing remains" clause)
+                    r["held_in"].update(nm_ for nm_, _ in request_entries(app, {(p["dest"], p["tag"])}))
                     if p["trailing"] or p["msg"] != r["payload"]:
                         r["wire_bad"] = f"sendUnicast body {raw.hex()} does not carry the packet payload {r['payload'].hex()}"
                     if p["type"] != 0:
@@ -308,7 +330,7 @@ def run_shard(desc) -> Acc:
                 payload = b"P%03d" % i + bytes([run_no & 0xFF])
                 cluster = 0x0100 + i
                 r = dict(rq, i=i, attempt=0, send_times=[], tags=[], payload=payload, accepted_at=None, wire_bad=None,
-                         outcome=None, t_end=None)
+                         outcome=None, t_end=None, held_in=set())
                 dev = None
                 if kind in ("uni_et", "uni_sr_et", "ieee"):
                     dev = devs[(run_no * 5 + i) % 40]
@@ -402,11 +424,17 @@ def run_shard(desc) -> Acc:
                 if r["kind"] in ("mcast", "bcast", "ieee", "uni_sr_et"):
                     acc.hit("kind_" + r["kind"])
             # bookkeeping
+            held = set().union(*(r["held_in"] for r in reqs)) if reqs else set()
+            pairs = {(r["dest"], tg) for r in reqs if isinstance(r["dest"], int) for tg in r["tags"]}
+            left = request_entries(app, pairs)
+            if left:
+                bad.append(("C12/bookkeeping/pending-entry-left", f"entries of finished requests are still held by the application: {left[:4]}"))
+            elif held:
+                acc.hit("pending_empty_checked")
             try:
                 np_ = len(app._pending)
-                if np_ != 0:
+                if np_ != 0 and not left:
                     bad.append(("C12/bookkeeping/pending-entry-left", f"{np_} entr(y/ies) left in the pending table: {list(app._pending)}"))
-                acc.hit("pending_empty_checked")
             except AttributeError:
                 pass
             # set-up / send frames of different requests never interleave
